@@ -12,6 +12,36 @@ CHECKS = {
     "C01": dict(cat="exploration", tech="model-based stateful PBT (proptest) vs association-list model + structure validator",
                 text="Generated-input search: ~24k (quick) / 400k (thorough) operation histories x hash plans x capacity histories on both scanner back-ends, every step compared with an association-list model and validated structurally (tag + probe reachability of every slot). Refutes, never proves; coverage classes are measured and reported.",
                 ref="9.1"),
+    "C03": dict(cat="exploration", tech="stateful PBT with per-element life-cycle ledger and allocation ledger (tracked elements, checking allocator)",
+                text="Generated histories over HashMap and HashTable with tracked elements; every owning iterator is cut at a generated point; a registry records construct/clone/drop per element serial and the checking allocator every allocate/deallocate with its layout. Double drops, leaks, layout mismatches and blocks left over are reported per step and at the end of each case.",
+                ref="9.3"),
+    "C04": dict(cat="fault_enumeration", tech="fault injection: for each generated (state, operation) every k-th invocation of every callback class panics; validity oracle after unwind",
+                text="Fault enumeration: for each generated history the target operations (the generated step plus steps that rehash in place or resize) are re-run once per (callback class, k) for every k up to the number of invocations observed fault-free (all k <= 64, geometric sample above). After the unwind the collection must validate structurally, len() must equal what it yields and finds, lost elements must be dropped exactly once, and a hasher panic during growth into a new block must leave contents unchanged.",
+                ref="9.4"),
+    "C05": dict(cat="exploration", tech="stateful PBT with answer tapes for Hash/Eq (inconsistent implementations); safety-subset oracle",
+                text="Histories under 8 modes of broken Hash/Eq driven by tapes stored in the case; only safety is judged: structure validator, checking allocator, element ledger, len()==yielded count, watchdog.",
+                ref="9.5"),
+    "C06": dict(cat="exploration", tech="model-based stateful PBT of the explicit-hash HashTable API vs multiset model",
+                text="Histories over HashTable with caller-supplied hashes (collisions in position, tag or both, exact duplicates), every step compared with a multiset model keyed by a unique id per inserted element; iter_hash superset/no-duplicate predicate; structure validator incl. probe reachability.",
+                ref="9.6"),
+    "C09": dict(cat="exploration", tech="PBT over (state, iterator kind, switch-over prefix, continuation) with exact-length oracle",
+                text="Every iterator kind of HashMap and HashTable is driven from generated states with a generated prefix and continuation (next/fold/for_each/clone/count/drop); size_hint and len checked at every step, yielded multiset compared with the model.",
+                ref="9.9"),
+    "C10": dict(cat="exploration", tech="PBT over (state, predicate subset, predicate mutation, early-drop point) vs model subset semantics",
+                text="retain / extract_if / drain on HashMap and HashTable from generated states with generated subsets and cut points; predicate call multiset, yielded items, survivors, mutations and allocation retention are compared with the model.",
+                ref="9.10"),
+    "C11": dict(cat="exploration", tech="metamorphic PBT over pairs of histories: clone/clone_from/== relations + independence via two models",
+                text="Two map slots with independent histories, capacities and hash plans; clone, clone_from (all relative bucket counts, tombstoned targets), == in both directions, mirrored contents through different histories; both maps keep being compared with their own models afterwards.",
+                ref="9.11"),
+    "C13": dict(cat="exploration", tech="long-history PBT with bounded live size: allocation bound + EMPTY-slot invariant + watchdog",
+                text="Long capped churn histories under all hash plans and five removal patterns; allocation_size() must stay below with_capacity(4 x peak live); structural invariant V2 (an EMPTY slot exists, growth_left cannot consume the last) after every step; watchdog on every operation.",
+                ref="9.13"),
+    "C14": dict(cat="exploration", tech="differential PBT: entry-style API chains vs plain get/insert/remove on the model, biased to full load",
+                text="entry, entry_ref, raw_entry(_mut) via from_key/from_key_hashed_nocheck/from_hash, rustc_entry: discriminant, return values and effects of method chains compared with the model from states biased to growth_left==0, tombstones and the singleton.",
+                ref="9.14"),
+    "C15": dict(cat="exploration", tech="PBT over (state, N, key tuples) with pointer-distinctness and write-through oracle",
+                text="get_many_mut / get_many_key_value_mut (HashMap) and get_many_mut (HashTable, closures that may match several entries): panic iff two requests name one entry, distinct addresses, right targets, sentinels land in the model's entries.",
+                ref="9.15"),
 }
 
 manifest = {
